@@ -38,6 +38,9 @@ WRAPS = {
     'se.vat': ('se.orgnr', lambda r: r[:-2], lambda w: [w.replace('-', '') + '01', 'SE' + w.replace('-', '') + '01']),
     'no.mva': ('no.orgnr', lambda r: r[:-3], lambda w: [w + 'MVA', 'NO' + w + 'MVA', 'NO ' + w + ' MVA']),
     'sk.rc': ('cz.rc', lambda r: r, lambda w: [w]),
+    # the national IBAN modules wrap the national account number in the BBAN
+    'no.iban': ('no.kontonr', lambda r: r[4:], lambda w: [mod('no.kontonr').to_iban(w)]),
+    'es.iban': ('es.ccc', lambda r: r[4:], lambda w: [mod('es.ccc').to_iban(w)]),
     'cz.rc': ('sk.rc', lambda r: r, lambda w: [w]),
 }
 
